@@ -160,6 +160,46 @@ func ocspBehaviours() []ocspBehaviour {
 	add("good/signed-by-other-key-embedding-real-delegate", clsOther, func(w *ocspWorld) netsim.Answer {
 		return okResp(pki.ForgeOCSP(pki.OCSPSpec{Issuer: w.root, Signer: w.otherDel.Key, Responder: w.delegate, Embed: []*pki.Cert{w.delegate}, Singles: []pki.OCSPSingle{single(w, pki.OCSPGood)}}))
 	})
+	// the same unauthorised signers answering Revoked with an invalidity date after the signing time (an exemption must not bypass authorisation)
+	for _, us := range []struct {
+		n    string
+		spec func(w *ocspWorld) pki.OCSPSpec
+	}{
+		{"signed-by-checked-cert", func(w *ocspWorld) pki.OCSPSpec {
+			return pki.OCSPSpec{Issuer: w.root, Signer: w.leaf.Key, Responder: w.leaf, Embed: []*pki.Cert{w.leaf}}
+		}},
+		{"signed-by-sibling-without-eku", func(w *ocspWorld) pki.OCSPSpec {
+			return pki.OCSPSpec{Issuer: w.root, Signer: w.sibling.Key, Responder: w.sibling, Embed: []*pki.Cert{w.sibling}}
+		}},
+		{"signed-by-unrelated-root-embedded", func(w *ocspWorld) pki.OCSPSpec {
+			return pki.OCSPSpec{Issuer: w.root, Signer: w.otherRoot.Key, Responder: w.otherRoot, Embed: []*pki.Cert{w.otherRoot}}
+		}},
+		{"signed-by-unrelated-root-not-embedded", func(w *ocspWorld) pki.OCSPSpec {
+			return pki.OCSPSpec{Issuer: w.root, Signer: w.otherRoot.Key, Responder: w.root}
+		}},
+	} {
+		us := us
+		add("revoked-invalidity+1/"+us.n, clsOther, func(w *ocspWorld) netsim.Answer {
+			sp := us.spec(w)
+			sg := single(w, pki.OCSPRevoked)
+			sg.Invalidity = w.st.Add(time.Hour)
+			sp.Singles = []pki.OCSPSingle{sg}
+			return okResp(pki.ForgeOCSP(sp))
+		})
+	}
+	add("revoked-invalidity+1/next-update-passed", clsOther, func(w *ocspWorld) netsim.Answer {
+		sg := single(w, pki.OCSPRevoked)
+		sg.Invalidity = w.st.Add(time.Hour)
+		sg.NextUpdate = pki.Now.Add(-time.Hour)
+		sg.ThisUpdate = pki.Now.Add(-48 * time.Hour)
+		return okResp(byIssuer(w, sg))
+	})
+	add("revoked-invalidity+1/other-serial", clsOther, func(w *ocspWorld) netsim.Answer {
+		sg := single(w, pki.OCSPRevoked)
+		sg.Invalidity = w.st.Add(time.Hour)
+		sg.Serial = big.NewInt(777005)
+		return okResp(byIssuer(w, sg))
+	})
 	add("good/signature-zeroed", clsOther, func(w *ocspWorld) netsim.Answer {
 		return okResp(pki.ForgeOCSP(pki.OCSPSpec{Issuer: w.root, Signer: w.root.Key, Responder: w.root, ZeroSignature: true, Singles: []pki.OCSPSingle{single(w, pki.OCSPGood)}}))
 	})
